@@ -620,13 +620,15 @@ Section Wire.
       the request is not accepted and the connection is closed without an answer.
       Before the repairs: [NoHost] without a value; a value which is not an authority makes the
       URI invalid ([InvalidPath]) — faithful for values without '/', '?', '#', which move part
-      of the value into the path instead. *)
-  Definition h1_accept (fx : fixes) (c : collection) (hh : list bytes) : option (list bytes * option bytes) :=
+      of the value into the path instead.  After them: without a usable value the URI is the
+      request target alone, if that is in origin form (starts with '/'); else [NoHost] as before. *)
+  Definition h1_accept (fx : fixes) (c : collection) (hh : list bytes) (target : bytes) : option (list bytes * option bytes) :=
+    let origin_form := starts_with [47] target in
     match (match wire_hosts hh with h :: _ => Some h | [] => c_default c end) with
-    | None => if fx_nohost fx then Some (wire_hosts hh, None) else None
+    | None => if fx_nohost fx && origin_form then Some (wire_hosts hh, None) else None
     | Some h =>
         if auth_ok h then Some (wire_hosts hh, Some h)
-        else if fx_authority fx then Some (wire_hosts hh, None) else None
+        else if fx_authority fx && origin_form then Some (wire_hosts hh, None) else None
     end.
 
   (** [ResolvesServerCert::resolve] for [Collection]: the handshake succeeds iff
@@ -642,7 +644,7 @@ Section Wire.
     : outcome ((nat -> hstate) * wire_reply) :=
     if w_tls r && negb (tls_accepts c (w_sni r)) then Ok (st, WNoTls)
     else
-    match (if w_tr r =? TR_H2 then Some (w_hosts r, w_authority r) else h1_accept fx c (w_hosts r)) with
+    match (if w_tr r =? TR_H2 then Some (w_hosts r, w_authority r) else h1_accept fx c (w_hosts r) (w_path r)) with
     | None => Ok (st, WClosed)
     | Some (hh, authority) =>
         match choose_host_uri (fx_h2auth fx) V1 c (w_conn_sni r) hh authority with
@@ -840,7 +842,7 @@ Definition d_wreq (x : xval) : option wreq :=
              && negb ((tr =? 2) && (v10 || match auth with None => true | Some _ => false end))
              && negb (negb (tr =? 2) && match auth with Some _ => true | None => false end)
              && negb (N.testbit flags 1 && N.testbit flags 2) && (flags <? 8)
-             && (starts_with [47; 104] path || (beq m s_GET && (flags <? 2)))
+             && starts_with [47] path && (starts_with [47; 104] path || (beq m s_GET && (flags <? 2)))
           then Some (mkW tr sni v10 m hh auth path flags) else None
       | _, _, _, _ => None
       end
